@@ -12,7 +12,7 @@ EXPLANATION = (
     "BOUNDED catalogue, oracle = the clauses of the statement checked on the OUTPUT (no second implementation of the wrapping): "
     "linesplit (and FmtStr.__getitem__, shared_atts, fmtstr ... whatever it calls) is abstractly interpreted for every text of up "
     "to 5 symbols over {a, b, space, tab} (thorough: 7; plus newline; longer ones thinned out deterministically), given as a str and as two FmtStr run layouts whose "
-    "formatting changes inside words and inside whitespace runs, a set of longer hand-written texts, and every columns in 1..6 "
+    "formatting changes inside words and inside whitespace runs (and a uniformly formatted layout with an empty run inside a gap), a set of longer hand-written texts, and every columns in 1..6 "
     "and 9 (quick: 1, 2, 3, 5, 9).  Checked on each result: it is a list of FmtStr; no line is longer than `columns`; no line is empty, starts or ends "
     "with whitespace; the non-whitespace characters of all lines, in order, are exactly those of the text with their formatting; "
     "inside a line, words are separated by exactly one space whose formatting is the shared formatting of the whitespace it "
@@ -40,6 +40,11 @@ def layouts(text):
         k = max(1, len(text) // 2)
         yield "two runs", [(text[:k], A1), (text[k:], A2)]
         yield "three runs", [(text[:1], A3), (text[1:k + 1], {}), (text[k + 1:], A2)]
+        # an empty run in the middle of a whitespace gap that is otherwise uniformly formatted
+        for j in range(1, len(text)):
+            if text[j - 1].isspace() and text[j].isspace():
+                yield "a uniformly formatted value with an empty run inside a gap", [(text[:j], A2), ("", {}), (text[j:], A2)]
+                break
 
 
 def check(src, rep):
@@ -62,6 +67,10 @@ def check(src, rep):
             texts.append(t)
     texts += [" home    is where the heart-eating mummy is", "aaaa bbbbbbbbbbbbbbb c", "  ", "\t", "a", "abcdefghijkl", "ab  cd\tef \t gh",
               "x " * 8, "abcdef abcdef", "abc de f ghijklmnop q"]
+    # a first word longer than a line whose last piece leaves room for the next word
+    for n1, n2 in itertools.product((4, 5, 7), (1, 2)):
+        texts.append("a" * n1 + " " + "b" * n2)
+        texts.append("a" * n1 + "  " + "b" * n2 + " a")
     jobs = []
     for t in texts:
         for kind, val in layouts(t):
